@@ -432,8 +432,9 @@ PROPS["C08"] = {
     "theorems": ["GoSup.Props.C08.c08_walk", "GoSup.Props.C08.edge_apply"],
     "ties": ["GoSup.Props.C08.tie_setState_sites", "GoSup.Props.C08.tie_error_reachable", "GoSup.Props.C08.tie_table_documented",
              "GoSup.Props.C08.tie_isRunning"],
-    "legs": [{"name": "httpsrv", "cmd": "httpsrv"}, {"name": "composite", "cmd": "composite"}],
-    "rule": "state streams of the real composite and HTTP server runners over the histories of the composite and httpsrv legs "
+    "legs": [{"name": "httpsrv", "cmd": "httpsrv"}, {"name": "composite", "cmd": "composite"}, {"name": "cluster", "cmd": "cluster"}],
+    "rule": "state streams of the real composite, HTTP server and HTTP cluster runners over the histories of the composite, httpsrv and "
+            "cluster legs "
             "(Run/Stop/Reload/cancel, child failures, boot failures, callback errors), observed by a subscriber present from the start "
             "and by one joining 0-60 ms later; Spec.C08.holdsStream on (streams, Run result, state at return, channel closure). "
             + COMP_RULE + " " + HTTP_RULE,
